@@ -20,6 +20,8 @@
 //!   resv <hex word>       the word as parameter (tail-recursive -> loop variable, recursive), local, lambda parameter,
 //!                         field, method, method parameter and function name of one program
 //!   cov <name>            one of the deterministic whole programs COV_PROGRAMS (no marker line: the leg ends with the program)
+//!   streq <hexA> <hexB>   == and != on Str for (constant A, constant B), (constant A, run-time B), (run-time A, constant B),
+//!                         (run-time A, run-time B), (run-time A, itself); run-time = concatenation executed by the program
 //!   veq <a> <b>           two Vec<int> built by push (elements comma separated, `-` = empty): a.eq(b), b.eq(a), a.eq(a)
 //!   seq <hexA> <na> <hexB> <nb>   a = "A" :: Str.fromInt(na), b likewise (run-time strings): a == b, a != b, a :: b
 //! stdout: per line  `T <hex text> <hex end|-> W <hex text> <hex end|->`   (TypeScript, WebAssembly)
@@ -198,6 +200,25 @@ fn snippet(line: &str) -> Option<String> {
       ))
     }
     ["cov", name] => COV_PROGRAMS.iter().find(|(n, _)| n == name).map(|(_, src)| format!("FULL:{src}")),
+    ["streq", ha, hb] => {
+      // == / != on strings with equal or different contents where the operands are the same constant
+      // (one shared object), a constant and a string built at run time, or two run-time strings
+      let ok = |t: &str| t.chars().all(|c| c != '"' && c != '\\' && (c as u32 >= 32));
+      let a = String::from_utf8(unhex(ha)).ok()?;
+      let b = String::from_utf8(unhex(hb)).ok()?;
+      if !ok(&a) || !ok(&b) {
+        return None;
+      }
+      let split = |t: &str| -> (String, String) {
+        let cs: Vec<char> = t.chars().collect();
+        (cs[..cs.len() / 2].iter().collect(), cs[cs.len() / 2..].iter().collect())
+      };
+      let (a1, a2) = split(&a);
+      let (b1, b2) = split(&b);
+      Some(format!(
+        "FULL:class Main {{\n  function e(k: int): Str = if k == 0 {{ \"\" }} else {{ \"x\" }}\n  function tf(a: Str, b: Str): Str = (if a == b {{ \"T\" }} else {{ \"F\" }}) :: (if a != b {{ \"T\" }} else {{ \"F\" }})\n  function main(): unit = {{\n    let z = \"0\".toInt();\n    let la = \"{a}\";\n    let lb = \"{b}\";\n    let ra = \"{a1}\" :: (\"{a2}\" :: Main.e(z));\n    let rb = \"{b1}\" :: (\"{b2}\" :: Main.e(z));\n    let _ = Process.println(Main.tf(la, lb) :: \" \" :: Main.tf(la, rb) :: \" \" :: Main.tf(ra, lb) :: \" \" :: Main.tf(ra, rb) :: \" \" :: Main.tf(ra, ra));\n  }}\n}}\n"
+      ))
+    }
     ["veq", a, b] => {
       let mut s = String::new();
       for (name, elems) in [("a", a), ("b", b)] {
@@ -348,7 +369,7 @@ fn main() {
       continue;
     };
     let sn = if sn.starts_with("FULL:") { sn } else { format!("{sn}    let _ = Process.println(\"{MARK}\");\n") };
-    if solo || l.starts_with("vec") || l.starts_with("veq") || l.starts_with("cov") || l.starts_with("resv") || l.starts_with("enum") || l.starts_with("vecr") || l.starts_with("seq") || l.starts_with("tag") {
+    if solo || l.starts_with("vec") || l.starts_with("veq") || l.starts_with("streq") || l.starts_with("cov") || l.starts_with("resv") || l.starts_with("enum") || l.starts_with("vecr") || l.starts_with("seq") || l.starts_with("tag") {
       progs.push(Prog { idx: vec![i], source: sn });
     } else {
       let c = cur.get_or_insert_with(|| Prog { idx: vec![], source: String::new() });
